@@ -198,6 +198,18 @@ type Action struct {
 	E    Expr   // asg rhs / setter arg
 	Name string // retract / forget / changed argument; setter: method name
 	Str  bool   // += on a string
+	Bare bool   // print the right-hand side without its outer parentheses
+	Once bool   // a method-call action that is not followed by Forget (the rule retracts itself)
+}
+
+// bare strips the outer parentheses of a fully parenthesised binary expression: "(a < b)" and "a < b" are
+// different nodes for the engine (the first is wrapped), but mean the same.
+func bare(e Expr, on bool) string {
+	s := e.GRL()
+	if _, isBin := e.(*Bin); on && isBin && len(s) > 2 {
+		return s[1 : len(s)-1]
+	}
+	return s
 }
 
 var FormName = map[string]string{"=": "set", "+=": "add", "-=": "sub", "*=": "mul", "/=": "div"}
@@ -205,7 +217,7 @@ var FormName = map[string]string{"=": "set", "+=": "add", "-=": "sub", "*=": "mu
 func (a *Action) GRL() string {
 	switch a.Kind {
 	case "asg":
-		return a.Path.GRL() + " " + a.Form + " " + a.E.GRL() + ";"
+		return a.Path.GRL() + " " + a.Form + " " + bare(a.E, a.Bare) + ";"
 	case "retract":
 		return "Retract(" + strconv.Quote(a.Name) + ");"
 	case "complete":
@@ -215,7 +227,7 @@ func (a *Action) GRL() string {
 	case "changed":
 		return "Changed(" + strconv.Quote(a.Name) + ");"
 	case "set":
-		return "F." + a.Name + "(" + a.E.GRL() + ");"
+		return "F." + a.Name + "(" + bare(a.E, a.Bare) + ");"
 	}
 	panic("bad action " + a.Kind)
 }
@@ -248,6 +260,7 @@ type Rule struct {
 	When    Expr
 	Then    []*Action
 	Removed bool // removed (library level) before the instance is created
+	Bare    bool // print the condition without its outer parentheses
 }
 
 func (r *Rule) GRL() string {
@@ -259,7 +272,7 @@ func (r *Rule) GRL() string {
 	if r.HasSal {
 		fmt.Fprintf(&b, "salience %d ", r.Sal)
 	}
-	b.WriteString("{ when " + r.When.GRL() + " then ")
+	b.WriteString("{ when " + bare(r.When, r.Bare) + " then ")
 	for _, a := range r.Then {
 		b.WriteString(a.GRL() + " ")
 	}
@@ -283,6 +296,22 @@ func (p *Program) GRL() string {
 		parts[i] = r.GRL()
 	}
 	return strings.Join(parts, "\n")
+}
+
+// Parts splits the program into k resources (rule order kept).
+func (p *Program) Parts(k int) []string {
+	if k > len(p.Rules) {
+		k = len(p.Rules)
+	}
+	out := make([]string, k)
+	for i, r := range p.Rules {
+		j := i * k / len(p.Rules)
+		if out[j] != "" {
+			out[j] += "\n"
+		}
+		out[j] += r.GRL()
+	}
+	return out
 }
 func (p *Program) JS() interface{} {
 	m := J{}
